@@ -52,7 +52,8 @@ const (
 	lenEmpty       = "fs-empty-component"
 	lenUnquoted    = "fs-unquoted-punctuation"
 	lenQuoted      = "fs-quoted-nonpunctuation"
-	lenSpecial     = "fs-special-only-value"
+	lenSpecial     = "fs-double-asterisk"
+	specialOpen    = "special-only-open"
 	lenLanguage    = "fs-language-unchecked"
 	mustReject     = "must-reject"
 	uriCaseFold    = "uri-nonascii-case-fold"
@@ -119,9 +120,17 @@ func classifyAV(c string) (strict bool, reasons []string) {
 		}
 	}
 	if lo == hi {
-		// nothing but special characters ("?", "??", "**", "?*", "*??", ...; the
-		// lone "*" was handled): the ABNF wants at least one body character
-		return false, []string{lenSpecial}
+		// nothing but special characters (the lone "*" was handled). Two
+		// asterisks in sequence are ruled out by the naming specification ("the
+		// asterisk MUST NOT be used more than once in sequence", also quoted in
+		// the package's own tests). For the other shapes ("?", "??", "?*", "*??")
+		// the two grammars the harness knows disagree (the XSD pattern wants a
+		// body, the ABNF's "spec_chrs *body2" does not), so they are left open:
+		// neither required to be accepted nor reported when accepted.
+		if c == "**" {
+			return false, []string{lenSpecial}
+		}
+		return false, []string{specialOpen}
 	}
 	for _, t := range toks[lo:hi] {
 		switch {
